@@ -26,8 +26,9 @@ _READ_CACHE: dict = {}
 def observable_attrs(cls: Class) -> set:
     """Instance attributes that are read somewhere outside __init__ (a value stored by the
     constructor and never read again is not a setting)."""
-    if cls.qual in _READ_CACHE:
-        return _READ_CACHE[cls.qual]
+    # cached on the class object itself: another program (a variant) has its own classes
+    if "_observable_attrs" in cls.__dict__:
+        return cls.__dict__["_observable_attrs"]
     out = set()
     for k in cls.mro() + cls.all_subclasses():
         for m in k.methods.values():
@@ -37,7 +38,7 @@ def observable_attrs(cls: Class) -> set:
                 if isinstance(n, ast.Attribute) and isinstance(n.ctx, ast.Load):
                     out.add(n.attr)
                     out.add(k.mangle(n.attr))
-    _READ_CACHE[cls.qual] = out
+    cls.__dict__["_observable_attrs"] = out
     return out
 
 
